@@ -11,8 +11,12 @@ use write_fonts::tables::gpos as wg;
 use write_fonts::tables::layout as wl;
 use write_fonts::verif_hooks::{ObjView, VGraph};
 
+/// big-endian u16; reads beyond the end (a truncated subtable) give 0xDEAD instead of a panic
 fn u16_at(b: &[u8], at: usize) -> u16 {
-    u16::from_be_bytes([b[at], b[at + 1]])
+    match b.get(at..at + 2) {
+        Some(x) => u16::from_be_bytes([x[0], x[1]]),
+        None => 0xDEAD,
+    }
 }
 
 fn render_cov_bytes(b: &[u8]) -> String {
@@ -413,6 +417,15 @@ pub fn pp2_dev_case(s: &mut Session, sc: &Pp2Dev) {
         acc += c1;
         points.push(acc);
         let mut rows_s = vec![];
+        // the record array must have exactly class1_count × class2_count records of the declared formats
+        let want = 16 + c1 * c2 * stride;
+        s.oracle("ppf2-devs:record-array-size", st.bytes.len() == want && c2 == sc.k2, name, || {
+            format!("piece {pi}: {} bytes, class1_count {c1} × class2_count {c2} × record size {stride} + 16 = {want}", st.bytes.len())
+        });
+        if st.bytes.len() != want {
+            bad.get_or_insert_with(|| format!("piece {pi}: record array size {} instead of {want}", st.bytes.len()));
+            continue;
+        }
         for i in 0..c1 {
             let mut cells_s = vec![];
             for j in 0..c2 {
